@@ -223,15 +223,48 @@ def unusedBuildDir (entry : Str → Bool) (tus : List TU) : List Finding :=
 /-- `std::strcmp(checkattr, "CheckUnusedFunctions") == 0` -/
 def isUnusedCheck (c : Str) : Bool := c = "CheckUnusedFunctions".toList
 
-/-- the same through the text: write `analyzerInfo`, wrap it like the cache file does, parse, run the handler -/
-def collectText (sourceFile : Str) (c : Collected) (text : Str) : Coll :=
-  match loadFile (storeFile 1 [("CheckUnusedFunctions".toList, text)]) with
-  | .ok l =>
-    l.foldl (fun acc ce =>
-      match acc with
-      | .threw => .threw
-      | .ok c => if isUnusedCheck ce.1 then loadUnusedKids sourceFile ce.2.kids c else .ok c) (.ok c)
+/-- one step of the handler of `CheckUnusedFunctions::analyseWholeProgram` over the `<FileInfo>` elements of a cache file -/
+def collectStep (sourceFile : Str) (acc : Coll) (ce : Str × Elem) : Coll :=
+  match acc with
+  | .threw => .threw
+  | .ok c => if isUnusedCheck ce.1 then loadUnusedKids sourceFile ce.2.kids c else .ok c
+
+/-- `processFilesTxt` + handler for one cache file (whatever other `<FileInfo>` elements it holds) -/
+def collectFile (sourceFile : Str) (c : Collected) (fileText : Str) : Coll :=
+  match loadFile fileText with
+  | .ok l => l.foldl (collectStep sourceFile) (.ok c)
   | _ => .threw
+
+/-- a summary text alone in a cache file: write it like `setFileInfo` does, parse, run the handler -/
+def collectText (sourceFile : Str) (c : Collected) (text : Str) : Coll :=
+  collectFile sourceFile c (storeFile 1 [("CheckUnusedFunctions".toList, text)])
+
+/-- the build-dir run over the summaries of all translation units, each through its text (this is what the driver executes) -/
+def textStep (acc : Coll) (t : TU) : Coll :=
+  match acc with
+  | .threw => .threw
+  | .ok c => collectText [] c (analyzerInfo t)
+
+def collectViaText (tus : List TU) : Coll := tus.foldl textStep (Coll.ok ⟨[], []⟩)
+
+/-- `analyseWholeProgram(settings, logger, buildDir)`: `none` = exception / unreadable file -/
+def unusedViaText (entry : Str → Bool) (tus : List TU) : Option (List Finding) :=
+  match collectViaText tus with
+  | .ok c => some (checkCollected entry c)
+  | .threw => none
+
+/-- the cache file of a translation unit as a run with `--enable=unusedFunction` writes it:
+    the five whole-program summaries and the `CheckUnusedFunctions` summary -/
+def storeAll (simp : Str → Str) (hash : Nat) (t : TUSummary) (u : TU) : Str :=
+  storeFile hash (t.infos simp ++ [("CheckUnusedFunctions".toList, analyzerInfo u)])
+
+/-- the unused-function handler over a list of cache files -/
+def fileStep (acc : Coll) (f : Str) : Coll :=
+  match acc with
+  | .threw => .threw
+  | .ok c => collectFile [] c f
+
+def collectFiles (files : List Str) : Coll := files.foldl fileStep (Coll.ok ⟨[], []⟩)
 
 /-! ## driver glue (wire format: see harness/c22.cpp, op `unused`) -/
 
@@ -295,13 +328,9 @@ def driverStep (ws : List String) : String :=
       | some (tus, []) =>
         let m := sortS ((unusedInMemory isMain tus).map findingS)
         let s := sortS ((staticInMemory isMain tus).map findingS)
-        let viaText := tus.foldl (fun acc t =>
-          match acc with
-          | .threw => .threw
-          | .ok c => collectText [] c (analyzerInfo t)) (Coll.ok ⟨[], []⟩)
-        let b := match viaText with
-          | .ok c => sortS ((checkCollected isMain c).map findingS)
-          | .threw => ["threw"]
+        let b := match unusedViaText isMain tus with
+          | some l => sortS (l.map findingS)
+          | none => ["threw"]
         let x := tus.map fun t => toHex (analyzerInfo t)
         s!"M={",".intercalate m} S={",".intercalate s} B={",".intercalate b} X={",".intercalate x}"
       | _ => "bad-op"
